@@ -93,6 +93,10 @@ def build(tree, base, pkg, race):
     cmd = ["go", "test", "-c", "-tags", "verif", "-trimpath", "-o", out]
     if race:
         cmd.append("-race")
+    if os.environ.get("VF_COVER"):
+        # development aid (not used by the registered commands): statement coverage of the library
+        # by a check; every job writes a profile into $VF_COVER/
+        cmd += ["-cover", "-coverpkg", "github.com/matrix-org/gomatrixserverlib/..."]
     cmd.append("./" + PKGDIR[pkg])
     t0 = time.time()
     r = run(cmd, cwd=tree, timeout=900)
@@ -248,6 +252,9 @@ def check(pid, tier, seed, keep=False):
                         cmd += ["-rapid.checks", str(n)]
                     if cfg.get("fatalwatch"):
                         env["VF_CURCASE"] = sp + ".cur"
+                    if os.environ.get("VF_COVER"):
+                        os.makedirs(os.environ["VF_COVER"], exist_ok=True)
+                        cmd += ["-test.coverprofile", os.path.join(os.environ["VF_COVER"], "%s-%s-%d.cov" % (pid, slug(p["name"]), sh))]
                     jobs.append(dict(name=p["name"], shard=sh, cmd=cmd, cwd=cwd, env=env, stats=sp, timeout=timeout + 30,
                                      limit=None if cfg["race"] else limit_memory))
             # replay tier: committed witnesses for this property
